@@ -468,7 +468,15 @@ def c15(run):
         except OSError: pass
 
 
+def c12(run):
+    run.assumptions += TRUSTED + ["expansions are computed in TLA+ (Grammar!ExpandGroups, MirrorSeq, ExpandOptSide, MetAsVars and the broadcast of condensed rules); both texts are printed by harness/src/rules.rs and c12.rs"]
+    res = run_tlc("GEN_C12", "gen/GEN_C12.tla", "gen/GEN_C12_%s.cfg" % run.tier, env=dict(run.known_env(), VERIF_NWORDS=12 if run.tier == "thorough" else 8), consumer=[HARNESS, "replay", "C12"], timeout=6000)
+    run.add_tlc("GEN_C12", res, "S->I: (shorthand, expansion) pairs for the five documented shorthands (condensed rules with broadcast, `_,X`, group letters inside arbitrary rules of the full grammar, "
+                                "bounded optionals in contexts and exceptions, `A B > &`), expansions computed in TLA+; the real interpreter run on both, structural results compared")
+
+
 PROPS = {
+    "C12": (c12, "model_checking"),
     "C15": (c15, "model_checking"),
     "C20": (c20, "model_checking"),
     "C19": (c19, "model_checking"),
